@@ -13,7 +13,8 @@ def gen_graph_history(rng, B, thorough):
     for i in range(n_nodes):
         ops.append((rng.choice([0, 0, 0, 1]), 100 + i, 0, 0)); al.add()
     wset = rng.choice([[0, 1, 1, 2, 3], [1, 1, 1, 2, 2, 5], [0, 0, 1, 7, 10], [1, 2, 3, 4, 5, 6, 7, 8, 9],
-                       [1, 3, 2**32, 2**32 + 5, 2**33, 2**32 - 1], [7, 2**20, 2**40, 2**40 + 1, 2**31, 2**52]])      # weights are u64: beyond 32 bits too
+                       [1, 3, 2**32, 2**32 + 5, 2**33, 2**32 - 1], [7, 2**20, 2**40, 2**40 + 1, 2**31, 2**52],      # weights are u64: beyond 32 bits too
+                       [2**63, 2**63, 2**63 - 1, 2**64 - 1, 2**64 - 2, 1, 2**62], [2**64 - 1, 2**64 - 1, 2**63 + 1, 5, 0]])      # path SUMS beyond u64 (defect D12, fixed: cost accumulated in u128)
     for _ in range(rng.randrange(0, 3 * n_nodes + 3)):
         r = rng.random()
         live = sorted(al.live)
@@ -90,7 +91,7 @@ def main():
                      "petgraph's astar itself is covered per explored input only (translation validation)")
     run.finish(extra_trusted=["petgraph::algo::astar is NOT modelled: each of its answers is validated by the proved checker (translation validation)",
                               "the specification graph the checker runs on is rebuilt from the op history through C08's spec step (sstep) with the implementation's return values"],
-               assumptions=["edge weights small enough that path sums do not overflow u64", "the reference distances (Bellman-Ford, |nodes| rounds) being closed under relaxation is CHECKED per query, not proved complete; a non-closed labelling would reject (alarm), never accept"])
+               assumptions=["path sums may exceed u64 (weights up to 2^64-1 are generated): the implementation accumulates the cost in u128 since the fix of D12; the model computes in N", "the reference distances (Bellman-Ford, |nodes| rounds) being closed under relaxation is CHECKED per query, not proved complete; a non-closed labelling would reject (alarm), never accept"])
 
 
 def replay(path):
